@@ -287,6 +287,8 @@ int World::pick_any_crate(int64_t t) const
 void World::begin_call(const FaultSpec& f)
 {
     g_taps.begin_call();
+    if (tracing)
+        g_taps.record_sql = true;
     g_disk.begin_api_call();
     g_taps.disarm();
     g_disk.fault = SimDisk::Armed{};
@@ -331,6 +333,20 @@ void World::end_call(Outcome& o)
     if (g_taps.f4.fired)
         fault_fired["F4"]++;
     o.step_errors = g_taps.step_errors;
+    if (tracing && (o.fault_fired || o.step_errors))
+    {
+        std::string t = "    [call: " + std::to_string(g_taps.stmt_count) + " statements, " +
+                        std::to_string(g_taps.ticks) + " ticks, step errors " + std::to_string(g_taps.step_errors) +
+                        ", last error code " + std::to_string(g_taps.last_error_code) + "]";
+        trace.push_back(t);
+        for (auto& q : g_taps.sql_log)
+            trace.push_back("      sql: " + q.substr(0, 110));
+    }
+    o.stmts = g_taps.stmt_count;
+    o.ticks = g_taps.ticks;
+    o.mallocs = g_taps.mallocs;
+    if (g_disk.record_calls)
+        o.vfs = g_disk.call_log;
     g_taps.f1.fired = g_taps.f2.fired = g_taps.f4.fired = false;
     g_taps.disarm();
     g_disk.fault = SimDisk::Armed{};
@@ -464,6 +480,11 @@ bool World::reload()
 
 void World::run()
 {
+    if (plan.cfg.profile.compare(0, 6, "atomic") == 0)
+    {
+        run_atomic();
+        return;
+    }
     open_library();
     if (stop)
         return;
